@@ -5,7 +5,7 @@
 macro_rules! quick_types {
     ($m:ident, $run:expr) => {
         $m!($run;
-            bnum::BUintD8<1>, bnum::BIntD8<1>, bnum::BUintD8<3>, bnum::BIntD8<3>, bnum::BUintD8<17>, bnum::BIntD8<17>,
+            bnum::BUintD8<1>, bnum::BIntD8<1>, bnum::BUintD8<3>, bnum::BIntD8<3>, bnum::BUintD8<25>, bnum::BIntD8<25>,
             bnum::BUintD16<1>, bnum::BIntD16<1>, bnum::BUintD16<3>, bnum::BIntD16<3>,
             bnum::BUintD32<1>, bnum::BIntD32<1>, bnum::BUintD32<3>, bnum::BIntD32<3>,
             bnum::BUint<1>, bnum::BInt<1>, bnum::BUint<3>, bnum::BInt<3>);
@@ -18,11 +18,11 @@ macro_rules! thorough_types {
         $m!($run;
             bnum::BUintD8<1>, bnum::BIntD8<1>, bnum::BUintD8<2>, bnum::BIntD8<2>, bnum::BUintD8<3>, bnum::BIntD8<3>,
             bnum::BUintD8<4>, bnum::BIntD8<4>, bnum::BUintD8<5>, bnum::BIntD8<5>, bnum::BUintD8<8>, bnum::BIntD8<8>,
-            bnum::BUintD8<17>, bnum::BIntD8<17>,
+            bnum::BUintD8<17>, bnum::BIntD8<17>, bnum::BUintD8<25>, bnum::BIntD8<25>, bnum::BUintD8<41>, bnum::BIntD8<41>,
             bnum::BUintD16<1>, bnum::BIntD16<1>, bnum::BUintD16<2>, bnum::BIntD16<2>, bnum::BUintD16<3>, bnum::BIntD16<3>,
-            bnum::BUintD16<4>, bnum::BIntD16<4>, bnum::BUintD16<5>, bnum::BIntD16<5>,
+            bnum::BUintD16<4>, bnum::BIntD16<4>, bnum::BUintD16<5>, bnum::BIntD16<5>, bnum::BUintD16<21>, bnum::BIntD16<21>,
             bnum::BUintD32<1>, bnum::BIntD32<1>, bnum::BUintD32<2>, bnum::BIntD32<2>, bnum::BUintD32<3>, bnum::BIntD32<3>,
-            bnum::BUintD32<5>, bnum::BIntD32<5>,
+            bnum::BUintD32<5>, bnum::BIntD32<5>, bnum::BUintD32<11>, bnum::BIntD32<11>,
             bnum::BUint<1>, bnum::BInt<1>, bnum::BUint<2>, bnum::BInt<2>, bnum::BUint<3>, bnum::BInt<3>,
             bnum::BUint<4>, bnum::BInt<4>, bnum::BUint<5>, bnum::BInt<5>);
     };
@@ -66,9 +66,9 @@ macro_rules! from_signed_prims {
 }
 /// the unsigned / signed halves of the type lists
 #[macro_export]
-macro_rules! quick_unsigned { ($m:ident, $run:expr) => { $m!($run; bnum::BUintD8<1>, bnum::BUintD8<3>, bnum::BUintD8<17>, bnum::BUintD16<1>, bnum::BUintD16<3>, bnum::BUintD32<1>, bnum::BUintD32<3>, bnum::BUint<1>, bnum::BUint<2>, bnum::BUint<3>); }; }
+macro_rules! quick_unsigned { ($m:ident, $run:expr) => { $m!($run; bnum::BUintD8<1>, bnum::BUintD8<3>, bnum::BUintD8<25>, bnum::BUintD16<1>, bnum::BUintD16<3>, bnum::BUintD32<1>, bnum::BUintD32<3>, bnum::BUint<1>, bnum::BUint<2>, bnum::BUint<3>); }; }
 #[macro_export]
-macro_rules! quick_signed { ($m:ident, $run:expr) => { $m!($run; bnum::BIntD8<1>, bnum::BIntD8<3>, bnum::BIntD8<17>, bnum::BIntD16<1>, bnum::BIntD16<3>, bnum::BIntD32<1>, bnum::BIntD32<3>, bnum::BInt<1>, bnum::BInt<2>, bnum::BInt<3>); }; }
+macro_rules! quick_signed { ($m:ident, $run:expr) => { $m!($run; bnum::BIntD8<1>, bnum::BIntD8<3>, bnum::BIntD8<25>, bnum::BIntD16<1>, bnum::BIntD16<3>, bnum::BIntD32<1>, bnum::BIntD32<3>, bnum::BInt<1>, bnum::BInt<2>, bnum::BInt<3>); }; }
 #[macro_export]
 macro_rules! thorough_unsigned { ($m:ident, $run:expr) => { $m!($run; bnum::BUintD8<1>, bnum::BUintD8<2>, bnum::BUintD8<3>, bnum::BUintD8<4>, bnum::BUintD8<5>, bnum::BUintD8<8>, bnum::BUintD8<16>, bnum::BUintD8<17>,
     bnum::BUintD16<1>, bnum::BUintD16<2>, bnum::BUintD16<3>, bnum::BUintD16<4>, bnum::BUintD16<5>, bnum::BUintD16<8>, bnum::BUintD32<1>, bnum::BUintD32<2>, bnum::BUintD32<3>, bnum::BUintD32<4>, bnum::BUintD32<5>,
